@@ -228,6 +228,21 @@ CHECKS += [
      "note": "Local filesystem; writes always use a new size, touches explicit logical times."},
 ]
 
+CHECKS += [
+    {"id": "C31", "engine": "opseq", "level": "model_checking",
+     "technique": "exhaustive enumeration of record/get/delete-bytes/reopen histories per backend configuration against a reference dict",
+     "text": "For 6 configurations (value-store threshold, max value size) all histories of 3 (quick) / 4 (thorough) operations over 6 values "
+     "straddling the thresholds, incl. a FileCache-typed value: a recorded value reads back with its hash, reads as absent after its offloaded "
+     "bytes were removed (never as another value), oversize values are rejected.",
+     "note": "Local value store; backend reopened with the same configuration."},
+    {"id": "C33", "engine": "enum", "level": "exploration",
+     "technique": "exhaustive comparison of status filters with displayed statuses over databases produced by real runs incl. a crash at every commit point",
+     "text": "50 (quick) / 75 (thorough) databases from real runs - done, cached, failed, caught, CSE-collapsed failing and done twins, nested "
+     "failures, and a workload crashed before every commit point (optionally followed by a recovery run); for each and every status the job and "
+     "execution filters must return exactly the rows displaying that status.",
+     "note": "Only row shapes reachable by real runs."},
+]
+
 _ALL = [f"C{i:02d}" for i in range(1, 39)]
 _claimed = {c["id"] for c in CHECKS}
 _REASONS = {}
